@@ -201,12 +201,12 @@ type SchedResult struct {
 // Run drives the tasks to completion following choices (index modulo the number of enabled tasks;
 // when the vector is exhausted the lowest enabled task runs). check runs after every step while
 // everything is stopped; a non-empty result ends the run.
-func (s *Sched) Run(choices []uint8, maxSteps int, check func() string) (res SchedResult, violation string) {
+func (s *Sched) Run(choices []int, maxSteps int, check func() string) (res SchedResult, violation string) {
 	ci := 0
 	return s.RunWith(func(enabled []*Task, step int) *Task {
 		c := 0
 		if ci < len(choices) {
-			c = int(choices[ci])
+			c = choices[ci]
 			ci++
 		}
 		return enabled[c%len(enabled)]
@@ -217,12 +217,12 @@ func (s *Sched) Run(choices []uint8, maxSteps int, check func() string) (res Sch
 // has a priority (prio: a permutation, drawn), the highest-priority enabled task always runs, and at
 // each of the drawn change points (step numbers) the running task's priority drops below all others.
 // Bugs that need d ordering constraints are hit with probability >= 1/(n*k^(d-1)).
-func (s *Sched) PCT(prio []uint8, changes []uint8) func(enabled []*Task, step int) *Task {
+func (s *Sched) PCT(prio []int, changes []int) func(enabled []*Task, step int) *Task {
 	pr := map[int]int{}
 	for i, t := range s.tasks {
 		p := 100 + i
 		if i < len(prio) {
-			p = 100 + int(prio[i])*8 + i
+			p = 100 + prio[i]*8 + i
 		}
 		pr[t.id] = p
 	}
@@ -235,7 +235,7 @@ func (s *Sched) PCT(prio []uint8, changes []uint8) func(enabled []*Task, step in
 			}
 		}
 		for _, c := range changes {
-			if int(c) == step {
+			if c == step {
 				pr[best.id] = low
 				low--
 				best = enabled[0]
